@@ -1820,9 +1820,9 @@ func (w *sessWorld) reader(ss *sessStream, dir int) {
 		case "release":
 			w.beforeCall(es)
 			es.inCall[1]++
+			ss.pins[dir] = nil // given up when the call starts: it recycles slice by slice and can be descheduled in between
 			br.ReleasePreviousRead()
 			es.inCall[1]--
-			ss.pins[dir] = nil
 		case "len":
 			w.checkLen(ss, dir, br.Len())
 		case "drain":
@@ -2145,8 +2145,8 @@ func (c *streamCb) OnData(reader BufferReader) {
 		}
 		d.consumed += int64(len(got))
 		d.rLastLen = reader.Len()
-		reader.ReleasePreviousRead()
 		ss.pins[0] = nil
+		reader.ReleasePreviousRead()
 		return true
 	}
 	switch op.K {
@@ -2189,8 +2189,8 @@ func (c *streamCb) OnData(reader BufferReader) {
 			return
 		}
 		d.consumed += int64(len(got))
-		es.stream.ReleaseReadAndReuse()
 		ss.pins[0] = nil
+		es.stream.ReleaseReadAndReuse()
 		d.rLastLen = es.stream.BufferReader().Len()
 		// the answer, written from inside the callback
 		d1 := ss.dirs[1]
